@@ -152,8 +152,43 @@ def check_fields(rep, prog):
             nm, sz = o.items[0][1], o.items[1][1]
             grp = [x for x in walk(sz) if isinstance(x, Op) and x.op == "m:groups"]
             ok = bool(grp) and sz == Op("int", Op("getitem", grp[0], Const(0))) and nm == Op("getitem", grp[0], Const(1))
-    rep.check(ok, rule, "one field (name = 2nd group, size = int(1st group)) per matching line, appended in file order", HL + "get_hlog_fields",
-              "fields.append(HistoryLogField(name, size))", "field table entries are not (name, width) in header-file order")
+    # by evaluation: the loader's summary is run on a sample header whose lines have known roles (array start / end, field
+    # rows inside and outside the array, a second array block, names with blanks / dots / padding, other C++ lines)
+    from ..terms import evaluate, CannotEval
+    S, E, O = "start", "end", "other"
+    sample = [("// generated\n", O), ('  { 1, "before_the_array" },\n', O),
+              ("static struct mex_hlog_field mex_hlog_fields[MEX_HLOG_FIELD_COUNT] =\n", S), ("{\n", O),
+              ('  { 1, "hl_one" },\n', ("hl_one", 1)), ('  {2,"hl two.words-x"} ,\n', ("hl two.words-x", 2)), ("  // comment\n", O),
+              ('  { 3, "too_wide" },\n', O), ('  { 1, " padded name " }\n', (" padded name ", 1)), ("};\n", E),
+              ('  { 2, "after_the_array" },\n', O), ("#ifdef VARIANT\n", O),
+              ("struct mex_hlog_field mex_hlog_fields[] = {\n", S), ('{ 2, "second_block" },\n', ("second_block", 2)), ("  } ;\n", E),
+              ('  { 1, "after_second" },\n', O)]
+    hdr_ = Sym("hdr")
+    evald = None
+    try:
+        lines_ = [l_ for l_, _ in sample]
+        fobj = Op("file", hdr_, Const("r"))
+        env = pelx.with_heap(I, {fobj: lines_, Op("len", fobj): len(lines_), hdr_: "hlog.h"})
+        got = evaluate(r, env)
+        got = [(x_.name, x_.size) if hasattr(x_, "name") else tuple(x_)[:2] for x_ in got]
+        inside, want = False, []
+        for l_, role in sample:
+            if role == S:
+                inside = True
+            elif role == E:
+                inside = False
+            elif inside and isinstance(role, tuple):
+                want.append(role)
+        evald = got == want
+        rep.count("sample header lines evaluated", len(sample))
+        rep.check(evald, rule, "one field (name, width) per field row inside a field array, in file order (run on a sample header)",
+                  HL + "get_hlog_fields", "fields.append(HistoryLogField(name, size))",
+                  "on a sample header the field table is %r, documented %r" % (got, want))
+    except CannotEval as e_:
+        rep.count("field table loader not runnable on a sample (%s): decided from its shape" % str(e_)[:50], 1)
+    if evald is None:
+        rep.check(ok, rule, "one field (name = 2nd group, size = int(1st group)) per matching line, appended in file order", HL + "get_hlog_fields",
+                  "fields.append(HistoryLogField(name, size))", "field table entries are not (name, width) in header-file order")
     # the line grammar: width is exactly one of 1/2; the name is any run of non-quote characters
     import re._parser as rp
     v = I.global_value("io_drawer.hlog", "HLOG_FIELD_RE")
